@@ -25,7 +25,8 @@ RULE = ('case = (role, local configured maximum, peer-announced maximum, data le
         'non-trivial = every case (each negotiates and transmits)')
 ASSUMPTIONS = ['maximum length bounds the P-DATA-TF variable field (PS3.8 D.1); 0 means no limit']
 REQUIRED = ['oracle.announced-value', 'oracle.peer-limit-honoured', 'oracle.message-complete',
-            'sim.entity-storage', 'sim.entity-hook', 'sim.source-short-reads']
+            'sim.entity-storage', 'sim.entity-hook', 'sim.entity-reuse', 'sim.entity-storage-full',
+            'sim.source-short-reads']
 
 GRID = [0, 7, 8, 9, 126, 127, 128, 129, 1023, 1024, 1025, 16383, 16384, 16385, 65535, 65536, 65537,
         2 ** 31 - 1, 2 ** 31, 2 ** 31 + 1, 2 ** 32 - 2, 2 ** 32 - 1]
@@ -73,6 +74,10 @@ def run_shard(spec, tier, seed):
                 # the ready-made storage entities negotiate like the plain ones
                 run_case(res, {'role': spec['role'], 'local': local, 'peer': peer, 'len': sizes_for(eff)[-1],
                                'seed': seed, 'kind': 'storage'})
+                if spec['role'] == 'requestor':
+                    for other in ('storage-full', 'reuse'):
+                        run_case(res, {'role': 'requestor', 'local': local, 'peer': peer, 'len': sizes_for(eff)[0],
+                                       'seed': seed, 'kind': other})
                 if spec['role'] == 'acceptor':
                     # per-peer configuration: the application's on_association_request sets the
                     # acceptor's maximum for this association
@@ -122,7 +127,7 @@ def run_case(res, case):
     where = '%s(%s entity) local=%d peer=%d data=%d' % (role, kind, local, peer, n)
     res.count('sim.entity-' + kind)
     import tempfile
-    storage_dir = tempfile.mkdtemp(prefix='vf-c10-') if kind == 'storage' else None
+    storage_dir = tempfile.mkdtemp(prefix='vf-c10-') if kind.startswith('storage') else None
     try:
         _run(res, case, role, local, peer, n, kind, where, storage_dir)
     finally:
@@ -189,13 +194,30 @@ def _run(res, case, role, local, peer, n, kind, where, storage_dir):
             else:
                 if kind == 'storage':
                     ae = pynetdicom2.ClientStorageAE(storage_dir, 'LOCAL', max_pdu_length=local)
+                elif kind == 'storage-full':
+                    # the ready-made storage entity in the requesting role
+                    ae = pynetdicom2.StorageAE(storage_dir, 'LOCAL', 0, max_pdu_length=local)
+                elif kind == 'reuse':
+                    # an entity that has already requested an association with another (larger)
+                    # maximum and was re-configured afterwards
+                    ae = applicationentity.ClientAE('LOCAL', max_pdu_length=131072)
+                    ae.add_scu(_echo_scu(), ['1.2.840.10008.1.1'])
+                    Stub.preload = [P.AAssociateAcPDU.decode(R.build_pdu(F.assoc_ac_tree(max_len=peer)))]
+                    ae.request_association({'aet': 'REMOTE', 'address': 'peer', 'port': 104}).__enter__()
+                    del Stub.instances[:]
+                    ae.max_pdu_length = local
                 else:
                     ae = applicationentity.ClientAE('LOCAL', max_pdu_length=local)
-                ae.add_scu(_echo_scu(), ['1.2.840.10008.1.1'])
+                if kind != 'reuse':
+                    ae.add_scu(_echo_scu(), ['1.2.840.10008.1.1'])
                 ac = P.AAssociateAcPDU.decode(R.build_pdu(F.assoc_ac_tree(max_len=peer)))
                 Stub.preload = [ac]
-                cm = ae.request_association({'aet': 'REMOTE', 'address': 'peer', 'port': 104})
-                asce = cm.__enter__()
+                try:
+                    cm = ae.request_association({'aet': 'REMOTE', 'address': 'peer', 'port': 104})
+                    asce = cm.__enter__()
+                finally:
+                    if kind == 'storage-full':
+                        ae.server_close()
                 stub = Stub.instances[0]
                 pdus = [p for p in stub.sent_pdus() if getattr(p, 'pdu_type', None) == 1]
             if len(pdus) == 1:
